@@ -713,6 +713,53 @@ impl C16 {
                                 }
                             }
                         }
+                        // two live iterators advanced in an interleaved order (nested cross-validation: an inner split runs
+                        // while the outer iterator is still alive). The interleaving is a schedule drawn from the case seed;
+                        // each iterator must still hand out a proper partition of its own rows.
+                        if rep.violation.is_none() {
+                            let sd = case.tape.seed;
+                            let n2 = if sd % 3 == 0 { n } else { 2 + (sd / 3 % 40) as usize };
+                            let k2 = (2 + (sd / 7 % 6) as usize).min(n2);
+                            let shuffle2 = sd % 10 < 7;
+                            let (x2, _) = make_xy::<T>(n2, 1);
+                            let cv2 = make_kfold(k2, shuffle2, (sd % 3) as u8);
+                            let res = guarded(|| {
+                                let mut a = cv.split(&x);
+                                let mut b = cv2.split(&x2);
+                                let (mut fa, mut fb) = (vec![], vec![]);
+                                let (mut a_done, mut b_done) = (false, false);
+                                let mut bits = sd | 1;
+                                let mut steps = 0u64;
+                                while !(a_done && b_done) && steps < 1_000_000 {
+                                    let pick_a = if a_done { false } else if b_done { true } else { bits & 1 == 0 };
+                                    bits = bits.rotate_right(1) ^ (steps.wrapping_mul(0x9E37_79B9_7F4A_7C15) >> 60);
+                                    steps += 1;
+                                    if pick_a {
+                                        match a.next() { Some(p) => fa.push(p), None => a_done = true }
+                                    } else {
+                                        match b.next() { Some(p) => fb.push(p), None => b_done = true }
+                                    }
+                                }
+                                (fa, fb)
+                            });
+                            rep.count("fault.interleaved-split-iterators", 1);
+                            match res {
+                                Err(msg) => rep.fail("panic", "kfold-iterator", format!("two interleaved KFold iterators (n={}, k={}, shuffle={} / n={}, k={}, shuffle={}) panicked: {}", n, k, case.shuffle, n2, k2, shuffle2, msg)),
+                                Ok((fa, fb)) => {
+                                    for (which, nn, kk, sh, f) in [("first", n, k, case.shuffle, &fa), ("second", n2, k2, shuffle2, &fb)] {
+                                        let tr: Vec<Vec<usize>> = f.iter().map(|p| p.0.clone()).collect();
+                                        let te: Vec<Vec<usize>> = f.iter().map(|p| p.1.clone()).collect();
+                                        for (t1, t2) in f.iter() {
+                                            d.usizes(t1).usizes(t2);
+                                        }
+                                        if let Err((c, m)) = check_folds(nn, kk, sh, &tr, &te) {
+                                            rep.fail(c, "kfold-interleaved", format!("the {} of two interleaved KFold iterators (n={}, k={}, shuffle={} / n={}, k={}, shuffle={}): {}", which, n, k, case.shuffle, n2, k2, shuffle2, m));
+                                            break;
+                                        }
+                                    }
+                                }
+                            }
+                        }
                         tests_for_state = Some(tests);
                     }
                 }
